@@ -87,9 +87,13 @@ func driveC09(a *args, s *vt.Sink) error {
 			return nil
 		case "rt":
 			return c09rtTrace(s, "c09/replay", r.H, r.Vecs)
+		case "mikeybin":
+			c09mikeyBin(s, "c09/replay")
+			return nil
 		}
 		return fmt.Errorf("c09: unknown replay kind %q", r.Kind)
 	}
+	c09mikeyBin(s, "c09/mikeybin")
 	if a.in == "" {
 		return fmt.Errorf("c09 needs -in")
 	}
@@ -452,6 +456,62 @@ func c09parseChunk(toks []string) []c09pres {
 		}
 	}
 	return out
+}
+
+// c09mikeyBin: MIKEY messages with 1 .. 255 crypto sessions (all payload kinds present), cut
+// short at every byte of their binary form, parsed repeatedly as a message and inside a KeyMgmt
+// header: each outcome must be a value or an error, the same every time (sizes computed from
+// the announced counts must not wrap).
+func c09mikeyBin(s *vt.Sink, class string) {
+	desc, _ := json.Marshal(c09replay{Kind: "mikeybin"})
+	tr := s.Begin(class, string(desc))
+	defer tr.End()
+	parseMsg := func(v string) (any, error) {
+		var m mikey.Message
+		err := m.Unmarshal([]byte(v))
+		return m, err
+	}
+	parseKM := func(v string) (any, error) {
+		var h headers.KeyMgmt
+		err := h.Unmarshal(base.HeaderValue{v})
+		return h, err
+	}
+	for _, ncs := range []int{1, 2, 28, 29, 30, 57, 114, 255} {
+		m, _ := c09mkMikey(0x0F, 2, 0) // T, RAND, SP, KEMAC
+		m.Header.CSIDMapInfo = nil
+		for i := 0; i < ncs; i++ {
+			m.Header.CSIDMapInfo = append(m.Header.CSIDMapInfo,
+				mikey.SRTPIDEntry{PolicyNo: uint8(i), SSRC: uint32(i) * 0x01010101, ROC: uint32(i)})
+		}
+		bin, err := m.Marshal()
+		if err != nil {
+			tr.Emit("parse", "h", "mikey.bin", "det", false, "panic", false, "why", "marshal_failed", "s", fmt.Sprint(ncs))
+			continue
+		}
+		for cut := 0; cut <= len(bin); cut++ {
+			if ncs > 30 && cut > 40 && cut%7 != 0 && cut < len(bin)-40 {
+				continue
+			}
+			for k, parse := range []func(string) (any, error){parseMsg, parseKM} {
+				str := string(bin[:cut])
+				if k == 1 {
+					str = `prot=mikey;uri="rtsp://h/s";data="` + base64.StdEncoding.EncodeToString(bin[:cut]) + `"`
+				}
+				first := c09once(parse, str)
+				det, panicked := true, first.panicked
+				for i := 1; i < c09Reps; i++ {
+					o := c09once(parse, str)
+					panicked = panicked || o.panicked
+					det = det && c09same(first, o)
+				}
+				if !det || panicked || cut%16 == 0 || cut == len(bin) {
+					tr.Emit("parse", "h", [2]string{"mikey.bin", "keymgmt.bin"}[k], "det", det, "panic", panicked,
+						"why", "mikey_truncated", "s", fmt.Sprintf("%d:%d", ncs, cut))
+				}
+			}
+		}
+	}
+	tr.Emit("end")
 }
 
 // c09emitParse logs one trace. rng == nil or sample == 1: everything; otherwise deterministic,
